@@ -71,14 +71,15 @@ Proof.
   rewrite forallb_forall in H. specialize (H f). rewrite range_In in H. specialize (H ltac:(cbn; lia)). lia.
 Qed.
 
-(* Round trip of the hmtx transform: for metrics h of the glyphs glyf (numberOfHMetrics =
-   |fst h|, numGlyphs = |glyf|), every encoding allowed by section 5.4 (either array dropped when
-   it equals the xMin values, reserved flag bits arbitrary) is decoded to h. *)
-Theorem hmtx_transform_roundtrip : forall glyf h bytes,
-  hmtx_ok glyf h -> Forall xmin_readable glyf -> encodes_hmtx glyf h bytes ->
-  read_woff2_hmtx glyf (len glyf) (len (fst h)) bytes = Ok h.
+(* what the reader does on any allowed encoding, as the code stands: the long metrics are always
+   rebuilt; the trailing array is the original one when it is present in the stream, and the xMin
+   of ALL glyphs (numGlyphs entries, from glyph 0) when LEFT_SIDE_BEARING_ABSENT is set *)
+Lemma hmtx_transform_actual : forall flags glyf h bytes,
+  hmtx_ok glyf h -> Forall xmin_readable glyf -> encodes_hmtx_flags flags glyf h bytes ->
+  read_woff2_hmtx glyf (len glyf) (len (fst h)) bytes =
+    Ok (fst h, if Z.land flags 2 =? 0 then snd h else map xmin_spec glyf).
 Proof.
-  intros glyf [hm lsbs] bytes (Hlen & Hhm & Hls) Hx (flags & Hf & H1 & H2 & ->).
+  intros flags glyf [hm lsbs] bytes (Hlen & Hhm & Hls) Hx (Hf & H1 & H2 & ->).
   cbn [fst snd] in *.
   destruct (land3_bits flags Hf) as (L1 & L2 & B1 & B2).
   assert (forall r, rd_array16 rd_u16 (len hm) (flat_map (fun p : Z * Z => wr_u16 (fst p)) hm ++ r)
@@ -100,9 +101,6 @@ Proof.
     - reflexivity.
     - intros x r0 Hp. apply rd_i16_wr; exact Hp.
     - exact Hls. }
-  assert (Forall xmin_readable (drop (len hm) glyf)) as Hxd.
-  { unfold drop. rewrite <- (firstn_skipn (Z.to_nat (len hm)) glyf) in Hx.
-    apply Forall_app in Hx. apply Hx. }
   pose proof (len_nonneg lsbs) as Hl0.
   unfold read_woff2_hmtx. cbn [app rd_u8 bind].
   rewrite Hadv. cbn [bind]. rewrite L1, L2.
@@ -113,8 +111,8 @@ Proof.
     replace (len glyf <? len hm) with false by lia.
     destruct B2 as [B2|B2]; rewrite B2; cbn [Z.eqb].
     + rewrite Hlsbs. cbn [bind]. rewrite zip_map_swap. reflexivity.
-    + rewrite glyph_xmins_spec by exact Hxd.
-      cbn [bind app]. rewrite zip_map_swap. rewrite (H2 B2). unfold drop, len. rewrite Nat2Z.id. reflexivity.
+    + rewrite glyph_xmins_spec by exact Hx.
+      cbn [bind app]. rewrite zip_map_swap. reflexivity.
   - (* lsb[] reconstructed from xMin *)
     rewrite glyph_xmins_spec by exact Hx. cbn [bind].
     replace (len glyf <? len hm) with false by lia.
@@ -123,6 +121,65 @@ Proof.
       rewrite firstn_map. rewrite <- (H1 B1). apply zip_map_swap. }
     destruct B2 as [B2|B2]; rewrite B2; cbn [Z.eqb].
     + cbn [app]. rewrite Hlsbs. cbn [bind]. rewrite Hz. reflexivity.
-    + rewrite glyph_xmins_spec by exact Hxd.
-      cbn [bind app]. rewrite Hz. rewrite (H2 B2). unfold drop, len. rewrite Nat2Z.id. reflexivity.
+    + cbn [bind app]. rewrite Hz. reflexivity.
+Qed.
+
+(* Round trip of the hmtx transform where the code is right: the trailing leftSideBearing[] array
+   is present in the stream (flag bit 1 clear); the lsb[] array of the long metrics may be present
+   or dropped (flag bit 0), reserved flag bits arbitrary. *)
+Theorem hmtx_transform_roundtrip : forall flags glyf h bytes,
+  hmtx_ok glyf h -> Forall xmin_readable glyf -> encodes_hmtx_flags flags glyf h bytes ->
+  Z.land flags 2 = 0 ->
+  read_woff2_hmtx glyf (len glyf) (len (fst h)) bytes = Ok h.
+Proof.
+  intros flags glyf h bytes Hok Hx Henc Hb.
+  rewrite (hmtx_transform_actual flags glyf h bytes Hok Hx Henc). rewrite Hb. destruct h; reflexivity.
+Qed.
+
+(* Known finding C11-hmtx-lsb-absent.  With LEFT_SIDE_BEARING_ABSENT (flag bit 1) the rebuilt
+   trailing array is the xMin of every glyph from glyph 0: numGlyphs entries instead of
+   numGlyphs - numberOfHMetrics. *)
+Theorem hmtx_lsb_absent_actual : forall flags glyf h bytes,
+  hmtx_ok glyf h -> Forall xmin_readable glyf -> encodes_hmtx_flags flags glyf h bytes ->
+  Z.land flags 2 = 2 ->
+  read_woff2_hmtx glyf (len glyf) (len (fst h)) bytes = Ok (fst h, map xmin_spec glyf).
+Proof.
+  intros flags glyf h bytes Hok Hx Henc Hb.
+  rewrite (hmtx_transform_actual flags glyf h bytes Hok Hx Henc). rewrite Hb. reflexivity.
+Qed.
+
+(* so, as soon as there is at least one long metric, the decoded table is NOT the original one *)
+Theorem hmtx_lsb_absent_differs : forall flags glyf h bytes,
+  hmtx_ok glyf h -> Forall xmin_readable glyf -> encodes_hmtx_flags flags glyf h bytes ->
+  Z.land flags 2 = 2 -> 1 <= len (fst h) ->
+  read_woff2_hmtx glyf (len glyf) (len (fst h)) bytes <> Ok h.
+Proof.
+  intros flags glyf h bytes Hok Hx Henc Hb Hn.
+  rewrite (hmtx_lsb_absent_actual flags glyf h bytes Hok Hx Henc Hb). intros E.
+  destruct h as [hm lsbs]. cbn [fst] in *. injection E as E.
+  destruct Hok as (Hlen & _). cbn [fst snd] in Hlen.
+  assert (len (map xmin_spec glyf) = len lsbs) as Hl by (rewrite E; reflexivity).
+  unfold len in Hl, Hlen, Hn. rewrite map_length in Hl. lia.
+Qed.
+
+(* what a reader of the decoded table sees: glyphs below numberOfHMetrics keep their metrics;
+   glyph g >= numberOfHMetrics gets the xMin of glyph g - numberOfHMetrics instead of its own *)
+Theorem hmtx_lsb_absent_lookup : forall flags glyf h bytes r g,
+  hmtx_ok glyf h -> Forall xmin_readable glyf -> encodes_hmtx_flags flags glyf h bytes ->
+  Z.land flags 2 = 2 ->
+  read_woff2_hmtx glyf (len glyf) (len (fst h)) bytes = Ok r ->
+  (0 <= g < len (fst h) -> hmtx_lsb r g = hmtx_lsb h g) /\
+  (len (fst h) <= g < len glyf ->
+     hmtx_lsb r g = xmin_spec (nth (Z.to_nat (g - len (fst h))) glyf GEmpty) /\
+     hmtx_lsb h g = xmin_spec (nth (Z.to_nat g) glyf GEmpty)).
+Proof.
+  intros flags glyf h bytes r g Hok Hx Henc Hb Hr.
+  rewrite (hmtx_lsb_absent_actual flags glyf h bytes Hok Hx Henc Hb) in Hr. injection Hr as <-.
+  destruct Henc as (_ & _ & H2 & _). specialize (H2 Hb).
+  unfold hmtx_lsb. cbn [fst snd]. split.
+  - intros Hg. replace (g <? len (fst h)) with true by lia. reflexivity.
+  - intros Hg. replace (g <? len (fst h)) with false by lia. split.
+    + change 0 with (xmin_spec GEmpty). apply map_nth.
+    + rewrite H2. change 0 with (xmin_spec GEmpty). rewrite map_nth. f_equal.
+      rewrite nth_skipn'. f_equal. unfold len in *. lia.
 Qed.
